@@ -365,6 +365,12 @@ def eval_fuzzy(tname):
                     pos = i + len(wd)
                 if any(c.isdigit() for c in joined):
                     viols.append({'kind': 'date-digits-in-skipped-tokens', 'text': text, 'tokens': list(toks)})
+                # words the date itself is written with (month, weekday, AM/PM) were used, not skipped
+                import re as _re
+                used = [w for w in _re.findall(r'[A-Za-z]{2,}', rend)]
+                if any(w in joined for w in used):
+                    viols.append({'kind': 'date-digits-in-skipped-tokens', 'text': text, 'tokens': list(toks),
+                                  'note': 'a word of the date appears among the skipped tokens', 'words': used})
     return Res(trans=n, viols=viols[:4], sample={'template': tname, 'example': FILLERS[2][0] + f(FUZZY_DT[0]) + FILLERS[2][1]}
                if tname in ('ctime', 'iso_time12') else None)
 
